@@ -13,6 +13,7 @@ use crate::util::*;
 use ark_ec::pairing::Pairing;
 use ark_ec::AffineRepr;
 use ark_ff::{One, PrimeField, Zero};
+use ark_poly_commit::{Evaluations, QuerySet};
 use ark_poly_commit::linear_codes::{LinCodeParametersInfo, LinearEncode};
 use ark_poly_commit::{hyrax, ipa_pc, kzg10, marlin_pc, sonic_pc, LabeledCommitment};
 
@@ -405,6 +406,32 @@ fn compare<S: RefOps>(rec: &mut Rec, id: &str, op: &str, vk: &VK<S>, comms: &[&L
     if got.accepted() != want {
         let dir = if got.accepted() { "lib-accepts" } else { "lib-rejects" };
         rec.violation(&format!("C10/{}/check/{}/{}", S::NAME, opc, dir), id, format!("{}: library -> {}, reference relation -> {}", op, got.short(), want));
+    }
+    // schemes with a batch verifier of their own: the same transcript as a one-point batch must be
+    // decided by the same relation (the batch code paths end in checks the single path does not share)
+    if !S::DEFAULT_BATCH {
+        let mut qs: QuerySet<S::Pt> = QuerySet::new();
+        let mut ev: Evaluations<S::Pt, S::F> = Evaluations::new();
+        for (c, v) in comms.iter().zip(values.iter()) {
+            qs.insert((c.label().clone(), ("q".to_string(), point.clone())));
+            ev.insert((c.label().clone(), point.clone()), *v);
+        }
+        // the batch verifier takes the polynomials of a point in label order: only transcripts opened in
+        // that order state the same claim as a one-point batch
+        let sorted = comms.windows(2).all(|w| w[0].label() < w[1].label());
+        if sorted && qs.len() == comms.len() && values.len() == comms.len() {
+            let bp: BPf<S> = vec![proof.clone()].into();
+            let mut sp = sponge_pre::<S::F>(0);
+            let mut rng = seed_rng(rec.seed, 40);
+            let gotb = do_batch_check::<S>(vk, comms, &qs, &ev, &bp, &mut sp, &mut rng);
+            rec.count_points(1);
+            rec.op(1);
+            rec.class(&format!("lib-batch-{}", gotb.class()));
+            if gotb.accepted() != want {
+                let dir = if gotb.accepted() { "lib-accepts" } else { "lib-rejects" };
+                rec.violation(&format!("C10/{}/batch_check/{}/{}", S::NAME, opc, dir), id, format!("{} (as a one-point batch): library -> {}, reference relation -> {}", op, gotb.short(), want));
+            }
+        }
     }
 }
 
